@@ -603,6 +603,10 @@ func refSelects(w *Obj, p *Obj) bool {
 	case SService:
 		return len(w.Sel) > 0 && sub(w.Sel)
 	case SRC:
+		// the selector or, lacking one, the template labels
+		if len(w.Sel) == 0 {
+			return sub(w.Tmpl)
+		}
 		return sub(w.Sel)
 	case SWorkload:
 		if w.LSel == nil {
@@ -746,7 +750,16 @@ func runC19(c *Ctx) {
 				want := refOwns(ws, pods[j])
 				if got != want {
 					replay := map[string]interface{}{"constructor": fam.name, "filter": f.Enc().String(), "pod": pods[j].Enc().String(), "accept": got, "ownership": want}
-					if fam.tag == FRCPods {
+					// the known finding is exactly this: the filter behaves as the ownership
+					// predicate WITHOUT its namespace clause; any other disagreement of the
+					// replication controller filter is a violation like everyone else's
+					loose := false
+					for _, w := range ws {
+						if refSelects(w, pods[j]) {
+							loose = true
+						}
+					}
+					if fam.tag == FRCPods && got == loose {
 						c.KnownFinding("D5-rc-podsfilter-no-namespace", "replicationcontroller.PodsFilter accepts a pod of another namespace (no namespace scoping)", replay)
 					} else {
 						c.Violation("", "PodsFilter disagrees with the ownership predicate", replay)
